@@ -276,3 +276,25 @@ Fixpoint law_hist (E : env) (c : cls) (i : Z) (s : inst) (h : list (op * obs)) :
   | [] => []
   | (o, ob) :: r => map (fun k => 100 * i + k) (law_step E c s o ob) ++ law_hist E c (i + 1) (o_after ob) r
   end.
+
+(* ---------- reading a name-based Range ---------- *)
+(* the declared range [low <(=) . <(=) high] over the integers is non-empty *)
+Definition dyn_nonempty (l h mask : Z) : bool :=
+  (l + (if Z.land mask 1 =? 0 then 0 else 1)) <=? (h - (if Z.land mask 2 =? 0 then 0 else 1)).
+(* clause 7: whatever is READABLE from a name-based Range (reported under rname n) lies in the declared range of that
+   moment, exclusivity included, whenever that range is non-empty *)
+Definition readable_ok (c : cls) (after : inst) (nd : Z * (desc * pv)) : bool :=
+  match nd with
+  | (n, (DRangeDyn lo hi mask, _)) =>
+      match get after (rname n), read c after lo, read c after hi with
+      | Some (PInt z), Some (PInt l), Some (PInt h) =>
+          if dyn_nonempty l h mask then int_range_spec z (Some l) (Some h) mask else true
+      | _, _, _ => true
+      end
+  | _ => true
+  end.
+Fixpoint law_reads (c : cls) (i : Z) (h : list (op * obs)) : list Z :=
+  match h with
+  | [] => []
+  | (_, ob) :: r => map (fun k => 100 * i + k) (chk 7 (forallb (readable_ok c (o_after ob)) c)) ++ law_reads c (i + 1) r
+  end.
